@@ -74,7 +74,7 @@ TABLE = {
 
 # what was added to each check after the first version of the table (sensitivity rounds 2-4, see DESIGN.md section 13)
 ADDED = {
-    "C01": "Later additions: creation mode 'x', buffered file-like sources, CRC-0 contents, 2^14/2^21 sizes. Open findings in dependencies (pyppmd KF-04, multivolumefile KF-45, inflate64 KF-47, bcj KF-49) are pinned under regress/C01 and matched only when the library, run alone on the exact input, shows the defect.",
+    "C01": "Later additions: creation mode 'x', buffered file-like sources, CRC-0 contents, 2^14/2^21 sizes. Open findings in dependencies (pyppmd KF-04 and KF-72, multivolumefile KF-45, inflate64 KF-47, bcj KF-49) are pinned under regress/C01 and matched only when the library, run alone on the exact input, shows the defect. One case's work is bounded by generated size (at most 40000 block/chunk steps, at most 900 volumes; the rest is counted as skipped), not by the clock.",
     "C02": "Later additions: every mode 0o400..0o777, writer block sizes 1/4 KiB and one file over 1 MiB, links to links, prefix-named sibling directories under dereference, working directory inside the tree, epoch mtime.",
     "C03": "Later additions: re-pointing slices (3/4/6-entry sequences in which a link is inside when created and re-pointed later), destination None with chdir after open, names extending the destination's name.",
     "C04": "Later additions: extraction with a progress callback attached, a 40-folder base, bases with CRC-0 members, PackPos > 0 and attribute-less directories.",
